@@ -221,6 +221,7 @@ class Checker:
                     if bad:
                         cls = sorted({type(W.make_unexpected(p)).__name__ for p, (f, fo) in W.outcome_table(case).items() if fo["r"] == "exc"})
                         out.append((bad[0], config, obs.get("choices", []), "%s [unexpected exception classes: %s]" % (bad[1], ",".join(cls))))
+                        self.failing_salt = salt          # shrinking / confirmation must use the same classes
                         return out
         finally:
             W.CLASS_SALT = old
@@ -316,6 +317,14 @@ class Checker:
         return len(new) >= 3
 
     def check(self, case, rng=None):
+        self.failing_salt = None
+        old_salt = W.CLASS_SALT
+        try:
+            return self._check(case, rng)
+        finally:
+            W.CLASS_SALT = old_salt
+
+    def _check(self, case, rng=None):
         ctx = self.ctx
         if self.enough():
             return True
@@ -324,6 +333,8 @@ class Checker:
         fails = self.failures_of(case, rng, collect_model=True)
         if not fails:
             return True
+        if self.failing_salt is not None:
+            W.CLASS_SALT = self.failing_salt
         what, config = fails[0][0], fails[0][1]
         ORPH = "completion-raises-after-sub-resolvers"
         if ORPH in W.features(case):
